@@ -197,7 +197,7 @@ def check_pattern(ctx, tr, rng, k, j, forced=None):
             os.chdir(root)
             rset = {os.path.normpath(str(p)) for p in WP.Path('.').rglob(pats, flags=flags_p)}
             rlow = {x.lower() for x in rset}
-            for c in tr.candidates(3)[:40]:
+            for c in (tr.candidates(6)[:250] if forced else tr.candidates(3)[:40]):
                 q = WP.Path(c)
                 try:
                     m = q.match(pats, flags=(flags_p & ~WP.NOUNIQUE) | WP.REALPATH)
